@@ -47,6 +47,7 @@ pub(crate) fn into_forwarded(
                 respond,
             }),
             fake_unsent: false,
+            interim_response_in_flight: false,
             id,
         }),
     ))
@@ -87,6 +88,9 @@ enum SourceState {
 struct ForwardedStreamSink {
     state: SinkState,
     fake_unsent: bool,
+    /// An interim response was handed to the client side, which may still be busy with it:
+    /// the next response has to wait (see [`pipe::Sink::wait_writable`])
+    interim_response_in_flight: bool,
     id: log_utils::IdChain<u64>,
 }
 
@@ -261,6 +265,16 @@ impl pipe::Sink for ForwardedStreamSink {
     }
 
     async fn wait_writable(&mut self) -> io::Result<()> {
+        if self.interim_response_in_flight {
+            let sent = match &self.state {
+                SinkState::WaitingResponse(x) => x.respond.wait_intermediate_response_sent(),
+                _ => return Err(io::Error::new(ErrorKind::Other, "Invalid state")),
+            };
+            sent.await?;
+            self.interim_response_in_flight = false;
+            return Ok(());
+        }
+
         if self.fake_unsent {
             self.fake_unsent = false;
             return Ok(());
@@ -296,6 +310,12 @@ impl ForwardedStreamSink {
             _ => unreachable!(),
         };
 
+        if self.interim_response_in_flight {
+            // nothing more can be queued for the client yet: the caller keeps the bytes
+            // until `wait_writable()` lets it offer them again
+            return Ok(data);
+        }
+
         let ((response, body_length), tail) = match state.parse_response(data, &self.id)? {
             (Some(x), tail) => (x, tail),
             (None, tail) => return Ok(tail),
@@ -303,8 +323,9 @@ impl ForwardedStreamSink {
 
         if (100..200).contains(&response.status.as_u16()) {
             state.respond.send_intermediate_response(response)?;
-            // what follows an interim response is still to be parsed: not a full sink
-            self.fake_unsent = !tail.is_empty();
+            // what follows an interim response is still to be parsed, but only after
+            // the client side has taken this one
+            self.interim_response_in_flight = true;
             return Ok(tail);
         }
 
